@@ -1327,6 +1327,38 @@ Proof.
   destruct (nth_error (ps_kinds p) (Z.to_nat pl)) as [[|e|e]|]; try discriminate. eauto.
 Qed.
 
+(* every AdvanceFrame request of a run, with the frame it simulates (first simulations and re-simulations alike) *)
+Fixpoint all_adv_frames (G : ghist) (outs : list (pout * apires)) : list (Z * frame_inputs) :=
+  match outs with
+  | [] => []
+  | o :: r => adv_frames G (o_requests (fst o)) ++ all_adv_frames (replay_hist G (o_requests (fst o))) r
+  end.
+
+(* an input handed out as Confirmed is the input held for that frame and player *)
+Definition confirmed_ok (gs : list ghost) (fi : Z * frame_inputs) : Prop :=
+  forall h v, nth_error (snd fi) h = Some (v, Confirmed) ->
+    exists gh, nth_error gs h = Some gh /\ 0 <= fst fi < hlen (fst gh) /\ hval (fst gh) (fst fi) = v.
+
+Lemma truthful_confirmed_ok : forall c gs fi, truthful_lt c gs fi -> confirmed_ok gs fi.
+Proof.
+  intros c gs [f ins] ((Hf & _) & Ht) h v Hn. cbn [fst snd] in *. unfold truthful in Ht. cbn [fst snd] in Ht.
+  assert (Hl := Forall2_len _ _ _ Ht).
+  destruct (nth_error gs h) as [gh|] eqn:Eg.
+  2:{ apply nth_error_None in Eg. assert (h < length ins)%nat by (apply nth_error_Some; congruence). lia. }
+  pose proof (Forall2_nth _ _ _ _ _ _ Ht Eg Hn) as T. cbv beta in T. unfold truthful1 in T. cbn [fst snd] in T.
+  exists gh. split; [reflexivity|]. destruct T as [(_ & A & B)|(X & _)]; [|discriminate]. split; [lia|congruence].
+Qed.
+
+Lemma confirmed_ok_grows : forall gs gs' fi, grows_gs gs gs' -> confirmed_ok gs fi -> confirmed_ok gs' fi.
+Proof.
+  intros gs gs' fi (Hlen & Hg) H h v Hn. destruct (H h v Hn) as (gh & Eg & Hf & Hv).
+  destruct (nth_error gs' h) as [gh'|] eqn:Eg'.
+  2:{ apply nth_error_None in Eg'. assert (h < length gs)%nat by (apply nth_error_Some; congruence). lia. }
+  destruct (Hg _ _ Eg') as (gh0 & ext & A & B). rewrite Eg in A. injection A as <-.
+  exists gh'. split; [reflexivity|]. rewrite B. split; [unfold hlen in *; rewrite app_length; lia|].
+  rewrite hval_app_l by lia. exact Hv.
+Qed.
+
 Section Generic.
 Variable sp : bool.
 Variable CI : Z -> p2p -> game -> Prop.
@@ -1804,7 +1836,8 @@ Lemma step_sends_g : forall p gs g w d o,
   QSg sp w d p gs -> CI w p g -> TI p gs (g_hist g) -> op_ok p o = true ->
   exists s gs' g', sstep predict p o = Ok s /\ QSg sp w d (sr_state s) gs' /\
     exec w g (o_requests (sr_out s)) = Some g' /\ CI w (sr_state s) g' /\ TI (sr_state s) gs' (g_hist g') /\
-    op_hist d p o gs gs' /\ ps_kinds (sr_state s) = ps_kinds p /\ sends_adv p gs gs' (sr_state s) (sr_out s).
+    op_hist d p o gs gs' /\ ps_kinds (sr_state s) = ps_kinds p /\ sends_adv p gs gs' (sr_state s) (sr_out s) /\
+    Forall (truthful_lt (s_current (ps_sync (sr_state s))) gs') (adv_frames (g_hist g) (o_requests (sr_out s))).
 Proof.
   clear CI_start.
   intros p gs g w d o HQS HJI HTI Hok.
@@ -1817,13 +1850,13 @@ Proof.
     destruct (CI_step p gs g w d SAdvance HQS HJI Hok) as (s0 & g' & Es0 & Ex & HJ').
     cbn [sstep] in Es0. destruct (advance predict p) as [[[p' o] r]| |] eqn:E; cbn [res_bind] in Es0; try discriminate. injection Es0 as <-.
     cbn [sr_state sr_out] in Ex, HJ'.
-    destruct (CI_adv p gs g w d p' o r (g_hist g) E HQS HJI Hbnd Hbnd1 HTI) as (gs' & HQ' & HTI' & Hh' & Hkk' & _ & _ & Hsd).
+    destruct (CI_adv p gs g w d p' o r (g_hist g) E HQS HJI Hbnd Hbnd1 HTI) as (gs' & HQ' & HTI' & Hh' & Hkk' & _ & HTR' & Hsd).
     cbn [sstep]. rewrite ?E. cbn [res_bind].
     exists (mksr p' o r), gs', g'. cbn [sr_state sr_out]. split; [reflexivity|]. split; [exact HQ'|]. split; [exact Ex|].
-    split; [exact HJ'|]. split; [rewrite (exec_hist _ _ _ _ Ex); exact HTI'|]. split; [exact Hh'|split; [exact Hkk'|exact Hsd]].
-  - destruct (step_timeline_g p gs g w d o HQS HJI HTI Hok) as (s & gs' & g' & Es & HQ' & Ex & HJ' & HT' & Hop & Hk & _ & _).
+    split; [exact HJ'|]. split; [rewrite (exec_hist _ _ _ _ Ex); exact HTI'|]. split; [exact Hh'|split; [exact Hkk'|split; [exact Hsd|exact HTR']]].
+  - destruct (step_timeline_g p gs g w d o HQS HJI HTI Hok) as (s & gs' & g' & Es & HQ' & Ex & HJ' & HT' & Hop & Hk & _ & HTR).
     exists s, gs', g'. split; [exact Es|]. split; [exact HQ'|]. split; [exact Ex|]. split; [exact HJ'|]. split; [exact HT'|].
-    split; [exact Hop|]. split; [exact Hk|].
+    split; [exact Hop|]. split; [exact Hk|]. split; [|exact HTR].
     destruct o as [h v|pl f v|ep st|hs|h|h dd|]; cbn [op_ok] in Hok; try discriminate; cbn [op_hist] in Hop; cbn [sstep] in Es.
     + subst gs'. unfold api_add_local_input in Es. intros HO.
       destruct (kind_at p h) as [[| |]|]; injection Es as <-; cbn [sr_state sr_out out0 o_remote_sends];
@@ -1865,27 +1898,28 @@ Theorem run_sends_g : forall ops p gs g w d,
       exists gh, nth_error gs' (Z.to_nat pl) = Some gh /\ 0 <= f < hlen (fst gh) /\ hval (fst gh) f = v) /\
     (forall pl e gh gh' f, 0 <= pl -> nth_error (ps_kinds p) (Z.to_nat pl) = Some (KRemote e) ->
       nth_error gs (Z.to_nat pl) = Some gh -> nth_error gs' (Z.to_nat pl) = Some gh' ->
-      hlen (fst gh) <= f < hlen (fst gh') -> In (SRemote pl f (hval (fst gh') f)) ops).
+      hlen (fst gh) <= f < hlen (fst gh') -> In (SRemote pl f (hval (fst gh') f)) ops) /\
+    Forall (confirmed_ok gs') (all_adv_frames (g_hist g) outs).
 Proof.
   clear CI_start.
   induction ops as [|o ops IH]; intros p gs g w d HQS HJI HTI HO.
   - right. exists p, [], gs, g. cbn [srun_in exec_outs all_sends flat_map]. split; [reflexivity|]. split; [reflexivity|].
     split; [exact HQS|]. split; [exact HJI|]. split; [exact HTI|]. split; [exact HO|]. split; [apply grows_gs_refl|].
-    split; [reflexivity|]. split; [constructor|]. split; [intros pl f v []|].
+    split; [reflexivity|]. split; [constructor|]. split; [intros pl f v []|]. split; [|constructor].
     intros pl e gh gh' f _ _ A B Hf. rewrite A in B. injection B as <-. lia.
   - cbn [srun_in]. destruct (op_ok p o) eqn:Hok; [|left; reflexivity].
-    destruct (step_sends_g p gs g w d o HQS HJI HTI Hok) as (s & gs1 & g1 & Es & HQ1 & Ex1 & HJ1 & HT1 & Hop & Hk1 & Hsd).
+    destruct (step_sends_g p gs g w d o HQS HJI HTI Hok) as (s & gs1 & g1 & Es & HQ1 & Ex1 & HJ1 & HT1 & Hop & Hk1 & Hsd & HTR1).
     rewrite Es. cbn [res_bind]. destruct (Hsd HO) as (HO1 & Hr1).
     assert (Hnp1 : ps_nplayers (sr_state s) = ps_nplayers p).
     { rewrite (QS_nplayers _ _ _ _ _ HQ1), (QS_nplayers _ _ _ _ _ HQS), Hk1. reflexivity. }
     pose proof (op_hist_grows_g w d p o gs gs1 (sr_state s) HQS HQ1 Hnp1 Hop) as Hg1.
     pose proof (local_handles_kinds p (sr_state s) (QS_nplayers _ _ _ _ _ HQS) (QS_nplayers _ _ _ _ _ HQ1) Hk1) as Hlh1.
-    destruct (IH (sr_state s) gs1 g1 w d HQ1 HJ1 HT1 HO1) as [Herr|(p' & outs & gs' & g' & E1 & Ex & HQ' & HJ' & HT' & HO' & Hg' & Hk' & Hr' & Hd' & Hc')].
+    destruct (IH (sr_state s) gs1 g1 w d HQ1 HJ1 HT1 HO1) as [Herr|(p' & outs & gs' & g' & E1 & Ex & HQ' & HJ' & HT' & HO' & Hg' & Hk' & Hr' & Hd' & Hc' & Hcf')].
     + left. rewrite Herr. reflexivity.
     + right. rewrite E1. cbn [res_bind].
       exists p', ((sr_out s, sr_api s) :: outs), gs', g'. split; [reflexivity|].
       split; [cbn [exec_outs]; rewrite Ex1; exact Ex|]. split; [exact HQ'|]. split; [exact HJ'|]. split; [exact HT'|].
-      split; [exact HO'|]. split; [eapply grows_gs_trans; eassumption|]. split; [congruence|]. split; [|split].
+      split; [exact HO'|]. split; [eapply grows_gs_trans; eassumption|]. split; [congruence|]. split; [|split; [|split]].
       * cbn [all_sends flat_map fst]. apply Forall_app. split.
         -- eapply rounds_ok_grows; [exact Hg'|exact Hr1].
         -- rewrite <- Hlh1. exact Hr'.
@@ -1929,6 +1963,11 @@ Proof.
               assert (0 <= hlen (fst gh)) by (unfold hlen; lia).
               rewrite hval_app_old by (rewrite hlen_app; lia). symmetry. apply hval_app_new.
            ++ right. apply (Hc' pl e _ gh' f Hpl Hkp1 A1 Ag'). cbn [fst]. rewrite hlen_app. lia.
+      * (* the requests: those of this call were truthful against gs1, which only grows *)
+        cbn [all_adv_frames fst]. apply Forall_app. split.
+        -- eapply Forall_impl; [|exact HTR1]. intros fi Ht. eapply confirmed_ok_grows; [exact Hg'|].
+           eapply truthful_confirmed_ok. exact Ht.
+        -- rewrite <- (exec_hist _ _ _ _ Ex1). exact Hcf'.
 Qed.
 
 (* from the initial state: what a session sends for its local players is what it simulates for them, and what it
@@ -1945,15 +1984,15 @@ Theorem sends_and_receipts_g : forall ops n w d kinds eps nspec p outs,
       exists gh, nth_error gs (Z.to_nat pl) = Some gh /\ 0 <= f < hlen (fst gh) /\ hval (fst gh) f = v) /\
     (forall pl e gh f, 0 <= pl -> nth_error kinds (Z.to_nat pl) = Some (KRemote e) ->
       nth_error gs (Z.to_nat pl) = Some gh -> 0 <= f < hlen (fst gh) -> In (SRemote pl f (hval (fst gh) f)) ops) /\
-    ps_kinds p = kinds /\ OB p gs.
+    ps_kinds p = kinds /\ OB p gs /\ Forall (confirmed_ok gs) (all_adv_frames [] outs).
 Proof using All.
   intros ops n w d kinds eps nspec p outs Hw Hd Hcap Hn Hlen Hpl H.
   pose proof (QS_start_gen sp n w d kinds eps nspec Hw Hd Hcap Hn Hlen Hpl) as HQ0.
   destruct (run_sends_g ops _ _ (game0 w) w d HQ0 (CI_start n w d kinds eps nspec Hw) (TI_start_g n w d kinds eps nspec)
               (conj (OI_start sp n w d kinds eps nspec) (OB_start sp n w d kinds eps nspec)))
-    as [E|(p' & outs' & gs & g & E1 & Ex & HQS & HJ & (HG & HGI & _) & (_ & HB) & _ & Hk & Hr & Hdl & Hcv)]; [congruence|].
+    as [E|(p' & outs' & gs & g & E1 & Ex & HQS & HJ & (HG & HGI & _) & (_ & HB) & _ & Hk & Hr & Hdl & Hcv & Hcok)]; [congruence|].
   rewrite H in E1. injection E1 as <- <-.
-  exists g, gs. split; [exact Ex|]. split; [exact HQS|]. split; [exact (CI_frame _ _ _ HJ)|]. split; [|split; [|split; [exact Hdl|split; [|split; [exact Hk|exact HB]]]]].
+  exists g, gs. split; [exact Ex|]. split; [exact HQS|]. split; [exact (CI_frame _ _ _ HJ)|]. split; [|split; [|split; [exact Hdl|split; [|split; [exact Hk|split; [exact HB|exact Hcok]]]]]].
   3:{ intros pl e gh f Hpl0 Hkp Ag Hf.
       assert (Hl0 : (Z.to_nat pl < Z.to_nat n)%nat).
       { assert (nth_error kinds (Z.to_nat pl) <> None) as X by congruence. apply nth_error_Some in X. lia. }
